@@ -269,9 +269,17 @@ def rule_block(ctx, repo):
     lens = [(g, n) for g, n in mg if 'len(commit_script)' in g]
     from ..rules import equiv as _eq3
     if len(lens) == 1 and id(lens[0][1]) in raising_ids:
-        v_ = _eq3(lens[0][0], 'len(commit_script) < 38 or len(commit_script) > 39')
+        v_ = _eq3(lens[0][0], 'len(commit_script) < 38 or len(commit_script) > 39', domain={'len(commit_script)': (38, None)})
+        refuses_valid = None
+        try:
+            code_ = compile(ast.parse(lens[0][0].replace('len(commit_script)', 'L_'), mode='eval'), '<guard>', 'eval')
+            refuses_valid = any(bool(eval(code_, {'__builtins__': {}}, {'L_': k_})) for k_ in (38, 39))
+        except Exception:
+            refuses_valid = None
         if v_ is True:
             r.ok('witness-commitment:length', common.site_of(fi, lens[0][1]), 'commitment output of 38 or 39 bytes')
+        elif v_ is False and not refuses_valid:
+            r.undecided('witness-commitment:length', common.site_of(fi, lens[0][1]), 'the commitment output is refused when `%s`: longer outputs than the confirmed rule (38 or 39 bytes) are let through' % lens[0][0])
         elif v_ is False:
             r.violated('witness-commitment:length', common.site_of(fi, lens[0][1]), 'the commitment output is refused when `%s`; the confirmed rule refuses lengths other than 38 and 39 bytes' % lens[0][0], sure=True)
         else:
